@@ -52,8 +52,11 @@ func (s *synchronizer) sync(_ context.Context, res Response) (Response, bool, er
 
 	s.cycle.counter++
 
-	if !res.Ack {
-		s.cycle.res.Ack = false
+	// A command succeeds when it succeeds for any channel, exactly as the storage
+	// engine combines the channels of one node: a leaseholder whose channels are
+	// exhausted or empty must not hide the samples the others returned.
+	if res.Ack {
+		s.cycle.res.Ack = true
 	}
 
 	if s.cycle.res.Error == nil && res.Error != nil {
